@@ -114,7 +114,7 @@ static bool read_file(const char* path, std::string& out) { std::ifstream f(path
 
 int main(int argc, char** argv) {
 	std::string prop = "C01", replay, out_prefix = "/tmp/ffsm2-sim", dump;
-	uint64_t seed = 1; long from = 0, to = 1000; int max_ops = 24; bool all = false; int samples = 3; bool do_shrink = true; bool quiet = false;
+	uint64_t seed = 1; long from = 0, to = 1000; int max_ops = 120; bool all = false; int samples = 3; bool do_shrink = true; bool quiet = false;
 	bool in_contract = false, neutral = false; bool digests = false; std::string prop_seed, seed_name, use; bool ignore_log = false;
 	for (int i = 1; i < argc; ++i) {
 		std::string a = argv[i];
